@@ -20,7 +20,8 @@ META = {
     "text": "Redact.tla enumerates every claims tree that is a spine of containers (objects and lists) of depth 1..4 with "
             "an optional sibling leaf at every level and a key class (sensitive exact / sensitive as substring / case "
             "variant / neutral) at every object level, optionally with one sub-object referenced twice, plus a few spines of depth "
-            "5-6 (4,062 trees quick, depth 3; about 57,000 thorough, depth 4), logged under the configurations of "
+            "5-6 (about 5,300 trees quick, depth 3 plus container chains to depth 5; about 77,000 thorough, depth 4 plus chains to depth 6; "
+            "containers are mappings, lists and tuples in every parent/child combination), logged under the configurations of "
             "Redact!Configs (redactor mode x logger level x dict/list vs Mapping/tuple x authenticated x formatter), with the oracle 'a leaf is hidden iff "
             "some key on its path is sensitive; the outermost sensitive key stays visible with a redacted value', and "
             "checks seven table-sanity invariants (incl. agreement with key-by-key redaction on flat claims) and refutes the faithful variant (Dev_TopLevelOnly) on the model.  Each tree is "
@@ -158,7 +159,7 @@ def concretize(levels: list[dict], alias: int, flavour: str, vi: int, rng):
                 markers[f"sib{j + 1}"] = m
                 seq = [m, child] if sib_first else [child, m]
                 entry["index"] = 1 if sib_first else 0
-            cont = seq if flavour == "plain" else tuple(seq)
+            cont = tuple(seq) if lv["kind"] == "tuple" else seq
         plan[j] = entry
         if alias and j == alias:
             below_alias = cont
@@ -166,7 +167,7 @@ def concretize(levels: list[dict], alias: int, flavour: str, vi: int, rng):
     return child, markers, plan
 
 
-MAXD = 6
+MAXD = 7
 
 
 def observe(line: str | None, markers: dict, plan: list[dict], levels: list[dict], cfg: dict) -> dict:
@@ -231,15 +232,15 @@ def run(ctx: Ctx) -> None:
     from vgi_rpc.rpc._server import _emit_access_log
 
     quick = ctx.quick
-    consts = {"MaxDepth": 3 if quick else 4, "DeepDepth": 6, "Dev_TopLevelOnly": False}
+    consts = {"MaxDepth": 3 if quick else 4, "ChainDepth": 5 if quick else 6, "DeepDepth": 7, "Dev_TopLevelOnly": False}
     invs = ["WellFormed", "NeutralHidesNothing", "FlatIsKeyByKey", "SubtreeHidden", "HiddenIffCovered", "AliasOnlyReveals",
             "IntendedCoversTopLevel", "ModelHidesAllSensitive"]
     cases = enumerate_cases(ctx, "data", "Redact", constants=consts, invariants=invs)
-    configs = [c["case"] for c in enumerate_cases(ctx, "data", "Redact", constants={**consts, "MaxDepth": 1, "DeepDepth": 1},
+    configs = [c["case"] for c in enumerate_cases(ctx, "data", "Redact", constants={**consts, "MaxDepth": 1, "ChainDepth": 1, "DeepDepth": 1},
                                                  cases="Configs", expected="ConfigExpected", name="configs")]
     # the design the code had when this check was built (top-level-only redaction): TLC refutes the property on that
     # model and returns a tree; the tree is one of the enumerated cases and is executed on the real code below
-    cex = faithful_counterexample(ctx, "data", "Redact", constants={"MaxDepth": 2, "DeepDepth": 2, "Dev_TopLevelOnly": True},
+    cex = faithful_counterexample(ctx, "data", "Redact", constants={"MaxDepth": 2, "ChainDepth": 2, "DeepDepth": 2, "Dev_TopLevelOnly": True},
                                   invariant="ModelHidesAllSensitive", name="Redact:faithful(Dev_TopLevelOnly)")
     ctx.extra["faithful_model_counterexample"] = cex or "(none: the faithful model satisfied the property)"
     ctx.exhaustive = True
@@ -335,7 +336,7 @@ def run(ctx: Ctx) -> None:
             plan_cfgs = [{**BASE, "fmt": "json" if ci % 2 == 0 else "access"}]
             if quick or ci % 2 == 0:
                 plan_cfgs.append(raising[(ci // 2) % len(raising)])
-            for _ in range(n_extra if alias == 0 else 1):
+            for _ in range(n_extra if (alias == 0 and len(levels) < 4) else 1):
                 plan_cfgs.append(others[rr % len(others)])
                 rr += 1
             for vi, cfg in enumerate(plan_cfgs):
@@ -384,7 +385,7 @@ def run(ctx: Ctx) -> None:
         ctx.sample({"abstract_tree": r["case"], "concrete_claims": r["_claims"], "leg": r["_leg"],
                     "logged_line": (r["_line"] or "")[:600], "observed": r["obs"]})
     bad = judge_dedup(ctx, "data", "Redact", [{"case": r["case"], "obs": r["obs"]} for r in records],
-                      constants={**consts, "MaxDepth": 1, "DeepDepth": 1}, chunk=40000)   # Conforms is independent of the bounds
+                      constants={**consts, "MaxDepth": 1, "ChainDepth": 1, "DeepDepth": 1}, chunk=40000)   # Conforms is independent of the bounds
     for idx, clauses in bad:
         r = records[idx]
         levels, o, exp, cfg = r["case"]["levels"], r["obs"], r["_exp"], r["obs"]["cfg"]
